@@ -1102,7 +1102,7 @@ class Exec:
         if not (isinstance(it, ast.Call) and isinstance(it.func, ast.Attribute)):
             return None
         from .calls import resolve
-        table = resolve(self.reg, it.func.attr)
+        table = resolve(self.reg, it.func.attr, getattr(self, 'repo', None))
         if not table or not any(c_.generator for c_ in table.values()):
             return None
         trivial = all(isinstance(b, ast.Pass) for b in s.body)
